@@ -240,6 +240,10 @@ def run(ctx):
                     if kind == "menu" and not is_menu(proto, r.out):
                         res.violation(f"C05:wrong-kind:{proto}", "a link advertised as a menu is answered with a document", inp,
                                       observed=r.out[:100], required="menu", replay=rp)
+                    if kind == "doc" and proto in ("http", "https") and b'CELLPADDING="0">' in r.out and b"</TABLE><HR>" in r.out \
+                            and b"<TITLE>Gopher: " in r.out:
+                        res.violation(f"C05:wrong-kind:{proto}:doc", "a link advertised as a document is answered with a menu", inp,
+                                      observed=r.out[:160], required="document", replay=rp)
                     if kind in ("menu", "any") and is_menu(proto, r.out) and (kind == "menu" or b"=> " in r.out or b"<a " in r.out):
                         for k2, l2 in links(proto, r.out, cfg):
                             if (k2, l2) not in seen:
